@@ -8,6 +8,7 @@ import (
 	"fmt"
 	"math"
 	"os"
+	"runtime/pprof"
 	"strings"
 	"sync"
 
@@ -111,6 +112,11 @@ func script(path string) {
 
 func main() {
 	if p := os.Getenv("C15_SCRIPT"); p != "" {
+		if pf := os.Getenv("C15_PROF"); pf != "" {
+			f, _ := os.Create(pf)
+			pprof.StartCPUProfile(f)
+			defer pprof.StopCPUProfile()
+		}
 		script(p)
 		return
 	}
@@ -120,7 +126,7 @@ func main() {
 			if th {
 				return 4000
 			}
-			return 150
+			return 80
 		},
 		Fixed: fixed(),
 		Nontrivial: func(ops, outs []string) bool {
